@@ -259,12 +259,29 @@ func (s *Store) MulI(a, b *Term) *Term {
 	if v, ok := b.IntVal(); ok {
 		return s.MulC(a, big.NewInt(v))
 	}
-	// distribute a constant-free product only when both are single atoms; otherwise keep opaque commutative product
-	x, y := a, b
-	if x.id > y.id {
-		x, y = y, x
+	// distribute over linear forms: (sum c_i x_i + k) * y = sum c_i (x_i * y) + k*y
+	if a.Op == "lin" {
+		as, cs, off := linParts(a)
+		acc := s.MulC(b, off)
+		for i, x := range as {
+			acc = s.Add(acc, s.MulC(s.MulI(x, b), cs[i]))
+		}
+		return acc
 	}
-	return s.mkOp("imul", TInt, x, y)
+	if b.Op == "lin" {
+		return s.MulI(b, a)
+	}
+	// n-ary commutative product of atoms, flattened and sorted
+	var fs []*Term
+	for _, x := range []*Term{a, b} {
+		if x.Op == "imul" {
+			fs = append(fs, x.Args...)
+		} else {
+			fs = append(fs, x)
+		}
+	}
+	sort.Slice(fs, func(i, j int) bool { return fs[i].id < fs[j].id })
+	return s.mkOp("imul", TInt, fs...)
 }
 
 func (s *Store) mkOp(op string, ty TyClass, args ...*Term) *Term {
@@ -291,7 +308,11 @@ func (s *Store) Op(op string, ty TyClass, args ...*Term) *Term {
 	case "ineg":
 		return s.Neg(args[0])
 	case "imul":
-		return s.MulI(args[0], args[1])
+		acc := args[0]
+		for _, x := range args[1:] {
+			acc = s.MulI(acc, x)
+		}
+		return acc
 	case "shl":
 		if k, ok := args[1].IntVal(); ok && k >= 0 && k < 62 {
 			return s.MulC(args[0], new(big.Int).Lsh(big.NewInt(1), uint(k)))
